@@ -89,6 +89,12 @@ def run(case, ctx, rng):
                 ctx.eq('same-object:enc==M^KS', call(lambda: o.enc(v, M)), want, after='hash(X) on the keyed object', **det)
                 for cut in sorted({0, 1, n // 2, max(0, n - 1), 64 if n > 64 else 0}):
                     ctx.eq('prefix', call(lambda: new().enc(v, M[:cut])), want[:cut], cut=cut, **det)
+                # caller-owned buffers: the message as a bytearray, the nonce as a Bits the caller keeps; neither is changed,
+                # and the nonce object can be reused for the next message
+                from vmon.core import mutable_arg
+                o = new(); vsnap = (v.ival, v.size)
+                mutable_arg(ctx, 'enc==M^KS', (lambda buf: o.enc(v, buf)), M, want, one_object=True, **det)
+                ctx.eq('enc==M^KS', (v.ival, v.size), vsnap, arg='the caller\'s nonce object is left unchanged', **det)
         else:
             import crysp.salsa20 as S20
             if not getattr(S20, '_verif_on', False):
